@@ -81,6 +81,11 @@ func init() {
 			{ID: "C17-W3-accept-mismatch", File: "core/aggsigdb/memory_v2.go", Expect: "W3|rejects mismatches",
 				Old: "\t\t} else if !equal {\n\t\t\treturn errors.New(\"mismatching data\")\n\t\t}",
 				New: "\t\t} else if !equal {\n\t\t\treturn nil\n\t\t}"},
+			// round 3: the re-evaluation goes through a helper that does not always reach execQuery
+			{ID: "C17-W1-helper-skips-uncancelled", File: "core/aggsigdb/memory.go", Expect: "W1|re-evaluates every uncancelled",
+				Old:  "\t\tif cancelled(query.cancel) {\n\t\t\tcontinue\n\t\t}\n\n\t\tif !db.execQuery(query) {\n\t\t\tdb.blockedQueries = append(db.blockedQueries, query)\n\t\t}\n\t}\n}",
+				New:  "\t\tdb.retry(query)\n\t}\n}",
+				More: [][2]string{{"func dataEqual(x core.SignedData", "func (db *MemDB) retry(query readQuery) {\n\tif cancelled(query.cancel) || len(db.blockedQueries) > 64 {\n\t\treturn\n\t}\n\n\tif !db.execQuery(query) {\n\t\tdb.blockedQueries = append(db.blockedQueries, query)\n\t}\n}\n\nfunc dataEqual(x core.SignedData"}}},
 			{ID: "C17-W3-helper-overwrites", File: "core/aggsigdb/memory.go", Expect: "W3",
 				Old:  "\t\t} else if !equal {\n\t\t\tcommand.response <- errors.New(\"mismatching data\")\n\t\t}",
 				New:  "\t\t} else if !equal {\n\t\t\tcommand.response <- errors.New(\"mismatching data\")\n\t\t\tdb.put(key, command.data)\n\t\t}",
@@ -198,7 +203,7 @@ func c17ChanFields(v ssa.Value, funcs []*ssa.Function) map[string]bool {
 			}
 			for _, g := range funcs {
 				for _, in := range an.Instrs(g, false) {
-					if ci, ok := in.(ssa.CallInstruction); ok && !ci.Common().IsInvoke() && ci.Common().StaticCallee() == fn && idx >= 0 && idx < len(ci.Common().Args) {
+					if ci, ok := in.(ssa.CallInstruction); ok && !ci.Common().IsInvoke() && ci.Common().StaticCallee() != nil && an.Orig(ci.Common().StaticCallee()) == an.Orig(fn) && idx >= 0 && idx < len(ci.Common().Args) {
 						walk(ci.Common().Args[idx], d+1)
 					}
 				}
@@ -275,23 +280,181 @@ func c17(c *rt.Ctx) {
 		if execQ == nil {
 			c.Bail("function core/aggsigdb.MemDB.execQuery not found (and no actor function with a readQuery parameter looks up MemDB.data)")
 		}
-		proc := c.FnOpt("core/aggsigdb.MemDB.processBlockedQueries")
-		if proc == nil {
-			for _, fn := range funcs {
-				if !confined[fn] || fn.Parent() != nil {
+		// the re-evaluation loops: loops of the actor over the pending list (MemDB.blockedQueries) that hand the
+		// element to execQuery, directly or through a helper that always does. Found by what they do, wherever they
+		// live (processBlockedQueries, a renamed helper, Run itself).
+		bqField := aggV1 + ".blockedQueries"
+		// cancelPrune: the edge taken when the query at hand is cancelled is not an obligation: a boolean helper
+		// applied to the query's cancel channel (`cancelled`), or the receive state of a select on that channel
+		cancelPrune := func(proc *ssa.Function, isCancel func(ssa.Value) bool) func(b *ssa.BasicBlock, succ int) bool {
+			return func(b *ssa.BasicBlock, succ int) bool {
+				iff, ok := b.Instrs[len(b.Instrs)-1].(*ssa.If)
+				if !ok {
+					return false
+				}
+				for _, in := range an.Instrs(proc, false) {
+					switch x := in.(type) {
+					case *ssa.Call:
+						if x.Call.StaticCallee() == nil || len(x.Call.Args) != 1 || !isCancel(x.Call.Args[0]) {
+							continue
+						}
+						if bt, isB := x.Type().Underlying().(*types.Basic); !isB || bt.Kind() != types.Bool {
+							continue
+						}
+						for _, cd := range an.CondsOn(proc, x) {
+							if cd.If == iff && cd.Other == nil {
+								return b.Succs[succ] == cd.Succ(true)
+							}
+						}
+					case *ssa.Select:
+						for j, st := range x.States {
+							if st.Dir != types.RecvOnly || !isCancel(st.Chan) {
+								continue
+							}
+							// if extract(select, 0) == j
+							bin, isBin := iff.Cond.(*ssa.BinOp)
+							if !isBin || bin.Op != token.EQL {
+								continue
+							}
+							ex, isEx := bin.X.(*ssa.Extract)
+							n, isC := an.ConstInt(bin.Y)
+							if isEx && isC && ex.Tuple == ssa.Value(x) && ex.Index == 0 && n == int64(j) {
+								return succ == 0
+							}
+						}
+					}
+				}
+				return false
+			}
+		}
+		var isExecCall func(in ssa.Instruction, isElem func(ssa.Value) bool, d int) bool
+		passesToExec := func(f *ssa.Function, idx, d int) bool {
+			if idx >= len(f.Params) || len(f.Blocks) == 0 || len(f.Blocks[0].Instrs) == 0 {
+				return false
+			}
+			par := f.Params[idx]
+			isP := func(v ssa.Value) bool { return an.Resolve(v) == ssa.Value(par) }
+			eff := func(in ssa.Instruction) bool { return isExecCall(in, isP, d) }
+			first := f.Blocks[0].Instrs[0]
+			if eff(first) {
+				return true
+			}
+			// returning early for a cancelled query is what the loop itself may do
+			isCancel := func(v ssa.Value) bool {
+				k, base, isF := an.FieldOf(an.Resolve(v))
+				if !isF || k != "core/aggsigdb.readQuery.cancel" || base == nil {
+					return false
+				}
+				if al, isAl := base.(*ssa.Alloc); isAl { // the parameter spilled to a local
+					return an.UniqueStore(al) == ssa.Value(par)
+				}
+				return isP(base)
+			}
+			_, esc := an.EscapePath(first, eff, an.PassOpt{Prune: cancelPrune(f, isCancel)})
+			return !esc
+		}
+		isExecCall = func(in ssa.Instruction, isElem func(ssa.Value) bool, d int) bool {
+			call, ok := in.(*ssa.Call)
+			if !ok {
+				return false
+			}
+			f := call.Call.StaticCallee()
+			if f == nil {
+				return false
+			}
+			args := call.Call.Args
+			if f == execQ {
+				return len(args) >= 2 && isElem(args[1])
+			}
+			if d >= 3 || f.Pkg != pkg {
+				return false
+			}
+			for j, a := range args {
+				if isElem(a) && passesToExec(f, j, d+1) {
+					return true
+				}
+			}
+			return false
+		}
+		// mayExecCall: the call can hand the value to execQuery (on some path, possibly through helpers): used to
+		// recognise the re-evaluation loop; the obligation below then demands it on every uncancelled path
+		var mayExecCall func(in ssa.Instruction, isElem func(ssa.Value) bool, d int) bool
+		mayExecCall = func(in ssa.Instruction, isElem func(ssa.Value) bool, d int) bool {
+			call, ok := in.(*ssa.Call)
+			if !ok {
+				return false
+			}
+			f := call.Call.StaticCallee()
+			if f == nil {
+				return false
+			}
+			args := call.Call.Args
+			if f == execQ {
+				return len(args) >= 2 && isElem(args[1])
+			}
+			if d >= 3 || f.Pkg != pkg {
+				return false
+			}
+			for j, a := range args {
+				if !isElem(a) || j >= len(f.Params) {
 					continue
 				}
-				for _, l := range an.Loops(fn) {
-					if cl := an.LoopColl(l); cl != nil {
-						if k, _, ok := an.FieldOf(an.Resolve(cl)); ok && k == aggV1+".blockedQueries" {
-							proc = fn
-						}
+				par := f.Params[j]
+				isP := func(v ssa.Value) bool { return an.Resolve(v) == ssa.Value(par) }
+				for _, in2 := range an.Instrs(f, false) {
+					if mayExecCall(in2, isP, d+1) {
+						return true
+					}
+				}
+			}
+			return false
+		}
+		type reLoop struct {
+			fn   *ssa.Function
+			l    *an.Loop
+			coll ssa.Value
+		}
+		var reLoops []reLoop
+		nListLoops := 0
+		for _, fn := range funcs {
+			if !confined[fn] {
+				continue
+			}
+			for _, l := range an.Loops(fn) {
+				cl := an.LoopColl(l)
+				if cl == nil {
+					continue
+				}
+				if k, _, ok := an.FieldOf(an.Resolve(cl)); !ok || k != bqField {
+					continue
+				}
+				nListLoops++
+				l, cl := l, cl
+				isElem := func(v ssa.Value) bool { return an.ElemOfColl(l, cl, v) }
+				for _, in := range an.Instrs(fn, false) {
+					if l.Body[in.Block()] && mayExecCall(in, isElem, 0) {
+						reLoops = append(reLoops, reLoop{fn, l, cl})
+						break
 					}
 				}
 			}
 		}
-		if proc == nil {
-			c.Bail("function core/aggsigdb.MemDB.processBlockedQueries not found (and no actor function loops over MemDB.blockedQueries)")
+		if len(reLoops) == 0 {
+			c.Bail("no loop of the Run actor over MemDB.blockedQueries hands its element to execQuery (%d loops over the list found)", nListLoops)
+		}
+		inReLoop := func(e an.Ev, headerOnly bool) bool {
+			if e.In == nil || e.In.Block() == nil {
+				return false
+			}
+			for _, rl := range reLoops {
+				if e.In.Parent() != rl.fn {
+					continue
+				}
+				if (headerOnly && e.In.Block() == rl.l.Header) || (!headerOnly && rl.l.Body[e.In.Block()]) {
+					return true
+				}
+			}
+			return false
 		}
 
 		// one iteration of the actor loop, explored path by path
@@ -336,20 +499,18 @@ func c17(c *rt.Ctx) {
 		// static coverage: writes of the data map and calls of execQuery inside the actor are on explored paths
 		nWrites, nExec := 0, 0
 		for _, fn := range funcs {
-			if !confined[fn] {
-				continue
-			}
 			for _, in := range an.Instrs(fn, false) {
 				switch x := in.(type) {
 				case *ssa.MapUpdate:
-					if isFieldMap(aggV1 + ".data")(x.Map) {
+					// the map may be handed to a helper as an argument: follow the value to the field
+					if isFieldMap(aggV1+".data")(x.Map) || c17ChanFields(x.Map, funcs)[aggV1+".data"] {
 						nWrites++
 						if !res.Visited[in] {
 							agg.unsure(reproc, posOf(in), "a write of MemDB.data in "+an.FuncName(fn)+" is not reached by the path enumeration of the actor loop")
 						}
 					}
 				case *ssa.Call:
-					if x.Call.StaticCallee() == execQ {
+					if x.Call.StaticCallee() == execQ && confined[fn] {
 						nExec++
 						if !res.Visited[in] {
 							agg.unsure(an.FuncName(fn)+" unserved query is queued", posOf(in), "this call of execQuery is not reached by the path enumeration of the actor loop")
@@ -371,14 +532,16 @@ func c17(c *rt.Ctx) {
 			var final *an.Sym
 			stored := false
 			for i, e := range evs {
+				// the path evaluates the head of a re-evaluation loop (or, should the head leave no event, runs in it)
+				if inReLoop(e, true) {
+					lastProc = i
+				} else if inReLoop(e, false) && (lastProc < 0 || !inReLoop(evs[lastProc], true)) {
+					lastProc = i
+				}
 				switch e.Kind {
 				case "mapupdate":
 					if isFieldSym(e.Args[0], aggV1+".data") || isFieldMap(aggV1+".data")(e.In.(*ssa.MapUpdate).Map) {
 						lastWrite = i
-					}
-				case "enter":
-					if e.Callee == proc {
-						lastProc = i
 					}
 				case "store":
 					if isFieldSym(e.Args[0], bq) {
@@ -408,7 +571,15 @@ func c17(c *rt.Ctx) {
 			if stored {
 				base, elems, spread = an.AppendElems(final)
 			}
-			if stored && lastProc < 0 {
+			// a path that established that the list was empty loses nothing by replacing it (the zero-iteration path
+			// around a rotated re-evaluation loop leaves no event inside the loop)
+			wasEmpty := false
+			for _, e := range evs {
+				if e.Kind == "branch" && c17LenIsZero(e.Args[0], e.Taken, bq) {
+					wasEmpty = true
+				}
+			}
+			if stored && lastProc < 0 && !wasEmpty {
 				agg.check(keep, posOf(evSel), isFieldSym(base, bq) && base.Kind == an.KInit,
 					"an iteration that does not re-evaluate the blocked queries replaces the list instead of appending to it: pending queries are forgotten")
 			} else {
@@ -464,58 +635,26 @@ func c17(c *rt.Ctx) {
 		}
 		agg.flush()
 
-		// processBlockedQueries: every pending query is either cancelled or passed to execQuery
-		{
-			var l *an.Loop
-			var coll ssa.Value
-			for _, x := range an.Loops(proc) {
-				cl := an.LoopColl(x)
-				if cl == nil {
-					continue
-				}
-				if k, _, ok := an.FieldOf(an.Resolve(cl)); ok && k == bq {
-					l, coll = x, cl
-				}
-			}
-			if l == nil {
-				c.Bail("processBlockedQueries does not range over the previous blockedQueries")
-			}
+		// the re-evaluation loop: every pending query is either cancelled or passed to execQuery, and the loop is not
+		// left early
+		for _, rl := range reLoops {
+			proc, l, coll := rl.fn, rl.l, rl.coll
 			var entry *ssa.BasicBlock
 			for _, s := range l.Header.Succs {
 				if l.Body[s] && s != l.Header {
 					entry = s
 				}
 			}
-			// the edge taken when cancelled(elem.cancel) is true is not an obligation
-			prune := func(b *ssa.BasicBlock, succ int) bool {
-				iff, ok := b.Instrs[len(b.Instrs)-1].(*ssa.If)
-				if !ok {
+			isCancelOfElem := func(v ssa.Value) bool {
+				if !an.ElemOfColl(l, coll, v) {
 					return false
 				}
-				for _, in := range an.Instrs(proc, false) {
-					call, ok := in.(*ssa.Call)
-					// a boolean test of the element's cancel channel (the `cancelled` helper)
-					if !ok || call.Call.StaticCallee() == nil || len(call.Call.Args) != 1 || !an.ElemOfColl(l, coll, call.Call.Args[0]) {
-						continue
-					}
-					if k, _, isF := an.FieldOf(call.Call.Args[0]); !isF || k != "core/aggsigdb.readQuery.cancel" {
-						continue
-					}
-					if b, isB := call.Type().Underlying().(*types.Basic); !isB || b.Kind() != types.Bool {
-						continue
-					}
-					for _, cd := range an.CondsOn(proc, call) {
-						if cd.If == iff && cd.Other == nil {
-							return b.Succs[succ] == cd.Succ(true)
-						}
-					}
-				}
-				return false
+				k, _, isF := an.FieldOf(an.Resolve(v))
+				return isF && k == "core/aggsigdb.readQuery.cancel"
 			}
-			isExec := func(in ssa.Instruction) bool {
-				ci, ok := in.(ssa.CallInstruction)
-				return ok && ci.Common().StaticCallee() == execQ && an.ElemOfColl(l, coll, ci.Common().Args[1])
-			}
+			prune := cancelPrune(proc, isCancelOfElem)
+			isElem := func(v ssa.Value) bool { return an.ElemOfColl(l, coll, v) }
+			isExec := func(in ssa.Instruction) bool { return isExecCall(in, isElem, 0) }
 			esc := true
 			var path []*ssa.BasicBlock
 			if entry != nil && len(entry.Instrs) > 0 {
@@ -525,11 +664,7 @@ func c17(c *rt.Ctx) {
 					path, esc = an.EscapePath(entry.Instrs[0], isExec, an.PassOpt{Prune: prune, StopAt: func(b *ssa.BasicBlock) bool { return b == l.Header }})
 				}
 			}
-			if esc && len(an.Calls(proc, func(cc *ssa.CallCommon) bool { return cc.StaticCallee() == execQ }, false)) == 0 {
-				c.Unsure("processBlockedQueries re-evaluates every uncancelled query", proc.Pos(), "no call of execQuery in the loop over the pending queries (moved into a helper?)")
-			} else {
-				c.Check("processBlockedQueries re-evaluates every uncancelled query", proc.Pos(), !esc, "an uncancelled pending query is skipped on path "+an.PathString(c.P, path))
-			}
+			c.Check("processBlockedQueries re-evaluates every uncancelled query", proc.Pos(), !esc, "an uncancelled pending query is skipped on path "+an.PathString(c.P, path))
 			early := an.LoopEarlyExitColl(l, coll)
 			epos := proc.Pos()
 			if early != nil {
@@ -684,7 +819,7 @@ func c17(c *rt.Ctx) {
 		storeTree := c17Reach(st)
 		for _, fn := range funcs {
 			for _, in := range an.Instrs(fn, false) {
-				if mu, ok := in.(*ssa.MapUpdate); ok && isFieldMap(aggV2+".data")(mu.Map) {
+				if mu, ok := in.(*ssa.MapUpdate); ok && (isFieldMap(aggV2+".data")(mu.Map) || c17ChanFields(mu.Map, funcs)[aggV2+".data"]) {
 					nWrites++
 					if !res.Visited[in] {
 						agg.unsure(notifyC, posOf(in), "a write of MemDBV2.data in "+an.FuncName(fn)+" is not reached by the path enumeration of Store")
@@ -782,8 +917,8 @@ func c17(c *rt.Ctx) {
 	})
 
 	c.Rule("W3", 6, func() {
-		c17InsertIfAbsent(c, c.Fn(aggV1+".execCommand"), aggV1+".data")
-		c17InsertIfAbsent(c, c.Fn(aggV2+".store"), aggV2+".data")
+		c17W3(c, funcs, aggV1+".data")
+		c17W3(c, funcs, aggV2+".data")
 	})
 
 	c.Rule("W4", 8, func() {
@@ -795,23 +930,127 @@ func c17(c *rt.Ctx) {
 	})
 }
 
+// c17W3 finds the code that writes the data map `field` by what it does (a map update whose map is the field,
+// directly or received as an argument) and decides insert-if-absent on its paths. The paths are rooted at the
+// function containing the write; when a write on some path is not preceded by any comma-ok lookup of the map the
+// root moves up to the in-package callers (the lookup may sit in the caller of a small `put` helper).
+func c17W3(c *rt.Ctx, funcs []*ssa.Function, field string) {
+	isMap := func(v ssa.Value) bool { return isFieldMap(field)(v) || c17ChanFields(v, funcs)[field] }
+	top := func(fn *ssa.Function) *ssa.Function {
+		for fn.Parent() != nil {
+			fn = fn.Parent()
+		}
+		return fn
+	}
+	var roots []*ssa.Function
+	depth := map[*ssa.Function]int{}
+	add := func(fn *ssa.Function, d int) {
+		fn = top(fn)
+		if _, seen := depth[fn]; !seen {
+			depth[fn] = d
+			roots = append(roots, fn)
+		}
+	}
+	for _, fn := range funcs {
+		for _, in := range an.Instrs(fn, false) {
+			if mu, ok := in.(*ssa.MapUpdate); ok && isMap(mu.Map) {
+				add(fn, 0)
+			}
+		}
+	}
+	if len(roots) == 0 {
+		c.Unsure("insert "+field, token.NoPos, "no write of "+field+" found in the package")
+		return
+	}
+	callers := func(fn *ssa.Function) []*ssa.Function {
+		var out []*ssa.Function
+		for _, g := range funcs {
+			if top(g) == fn {
+				continue
+			}
+			for _, in := range an.Instrs(g, false) {
+				if ci, ok := in.(ssa.CallInstruction); ok && an.Orig(ci.Common().StaticCallee()) == fn {
+					out = append(out, g)
+					break
+				}
+			}
+		}
+		return out
+	}
+	evaluated := 0
+	for i := 0; i < len(roots); i++ {
+		fn := roots[i]
+		tr := &an.Tracer{Root: fn, Inline: func(f *ssa.Function) bool {
+			return (f.Pkg == fn.Pkg || f.Parent() != nil) && f.Name() != "dataEqual"
+		}}
+		res := tr.Run()
+		h1617Dump("C17 W3 "+an.FuncName(fn), res)
+		// does some path write the map without having looked it up at all?
+		blind := false
+		for _, p := range res.Paths {
+			looked := false
+			for _, e := range p.Evs {
+				switch e.Kind {
+				case "lookup":
+					if x := e.In.(*ssa.Lookup); x.CommaOk && (isFieldSym(e.Args[0], field) || isMap(x.X)) {
+						looked = true
+					}
+				case "mapupdate":
+					if x := e.In.(*ssa.MapUpdate); !looked && (isFieldSym(e.Args[0], field) || isMap(x.Map)) {
+						blind = true
+					}
+				}
+			}
+		}
+		if cs := callers(fn); blind && depth[fn] < 3 && len(cs) > 0 && !res.Truncated {
+			for _, g := range cs {
+				add(g, depth[fn]+1)
+			}
+			continue
+		}
+		evaluated++
+		c17InsertIfAbsent(c, fn, field, res, isMap)
+	}
+	if evaluated == 0 {
+		c.Unsure("insert "+field, token.NoPos, "no function to decide insert-if-absent on")
+	}
+}
+
+// c17NilOnPath decides whether the path assumed s == nil (or its negation): +1 nil, -1 non-nil, 0 unknown.
+func c17NilOnPath(p *an.Path, s *an.Sym) int {
+	if s == nil {
+		return 0
+	}
+	if s.IsNil() {
+		return 1
+	}
+	nilS := &an.Sym{Kind: an.KConst}
+	a, b := s, nilS
+	if a.Key() > b.Key() {
+		a, b = b, a
+	}
+	eq := &an.Sym{Kind: an.KBin, Op: token.EQL, Args: []*an.Sym{a, b}}
+	if v, ok := p.Assume[eq.Key()]; ok {
+		if v {
+			return 1
+		}
+		return -1
+	}
+	return 0
+}
+
 // c17InsertIfAbsent is the path-based form of common.go's checkInsertIfAbsent (helpers and closures of fn are
 // followed): on every path through fn, a write data[k] is preceded by a comma-ok lookup data[k] of the same key
 // that was decided absent; a path on which a lookup was decided present never writes the data map; and among the
 // present-key paths one rejects (sends or returns a non-nil error) after a test of the existing value while another
 // accepts: conflicting data is compared and refused.
-func c17InsertIfAbsent(c *rt.Ctx, fn *ssa.Function, field string) {
-	tr := &an.Tracer{Root: fn, Inline: func(f *ssa.Function) bool {
-		return (f.Pkg == fn.Pkg || f.Parent() != nil) && f.Name() != "dataEqual"
-	}}
-	res := tr.Run()
-	h1617Dump("C17 W3 "+an.FuncName(fn), res)
+func c17InsertIfAbsent(c *rt.Ctx, fn *ssa.Function, field string, res *an.TraceResult, isMap func(ssa.Value) bool) {
 	name := an.FuncName(fn)
 	if res.Truncated || len(res.Paths) == 0 {
 		c.Unsure(name+" "+field, fn.Pos(), "path enumeration failed")
 		return
 	}
-	isData := func(s *an.Sym, v ssa.Value) bool { return isFieldSym(s, field) || isFieldMap(field)(v) }
+	isData := func(s *an.Sym, v ssa.Value) bool { return isFieldSym(s, field) || isMap(v) }
 	insertC, neverC, rejectC := name+" insert "+field, name+" existing-key branch of "+field+" never writes", name+" existing-key branch of "+field+" rejects mismatches"
 	agg := newAgg(c)
 	nWrites, nLookups := 0, 0
@@ -873,21 +1112,31 @@ func c17InsertIfAbsent(c *rt.Ctx, fn *ssa.Function, field string) {
 			// does the path test the existing value, and how does it end?
 			existing := &an.Sym{Kind: an.KExtract, Args: []*an.Sym{l.res}, Index: 0}
 			tested := branchDependsOn(p, existing, l.pos, len(p.Evs))
-			rejects := false
-			for _, e := range p.Evs[l.pos:] {
-				if snd, ok := e.In.(*ssa.Send); ok && e.Kind == "send" && an.IsErrorType(snd.X.Type()) && !e.Args[1].IsNil() {
+			rejects, accepts := false, true
+			// an error value leaving the path: positively an error (assumed non-nil, or made by a call such as
+			// errors.New), possibly one (nothing assumed), or nil
+			classify := func(r *an.Sym) {
+				switch n := c17NilOnPath(p, r); {
+				case n < 0, n == 0 && (r.Kind == an.KOpaque || r.Kind == an.KFresh):
+					rejects, accepts = true, false
+				case n == 0:
 					rejects = true
 				}
 			}
+			for _, e := range p.Evs[l.pos:] {
+				if snd, ok := e.In.(*ssa.Send); ok && e.Kind == "send" && an.IsErrorType(snd.X.Type()) && e.Args[1] != nil {
+					classify(e.Args[1])
+				}
+			}
 			for i, r := range p.Results {
-				if sig := fn.Signature.Results(); i < sig.Len() && an.IsErrorType(sig.At(i).Type()) && r != nil && !r.IsNil() {
-					rejects = true
+				if sig := fn.Signature.Results(); i < sig.Len() && an.IsErrorType(sig.At(i).Type()) && r != nil {
+					classify(r)
 				}
 			}
 			if tested && rejects {
 				presentReject = true
 			}
-			if !rejects {
+			if accepts {
 				presentAccept = true
 			}
 		}
